@@ -33,6 +33,8 @@ const (
 	fkcCascadeNonNull
 	fkSelfIdxNullable
 	fkSelfCascade
+	fkSelfNone
+	fkChildTarget
 )
 
 var fkWiringNames = map[fkWiring]string{
@@ -45,27 +47,37 @@ var fkWiringNames = map[fkWiring]string{
 	fkcCascadeNonNull:  "fk-constraint non-null cascade-delete",
 	fkSelfIdxNullable:  "self-referential fk-index nullable (restrict)",
 	fkSelfCascade:      "self-referential fk-constraint cascade-delete",
+	fkSelfNone:         "self-referential fk-constraint cascade-none (restrict)",
+	fkChildTarget:      "fk-constraint (restrict) whose target is a child store of the referring store",
 }
 
 func (w fkWiring) hasIndex() bool {
 	return w == fkIdxNullable || w == fkIdxNonNull || w == fkIdxCascade || w == fkSelfIdxNullable
 }
 func (w fkWiring) nullable() bool {
-	return w == fkIdxNullable || w == fkcNoneNullable || w == fkcCascadeNullable || w == fkSelfIdxNullable || w == fkSelfCascade
+	return w == fkIdxNullable || w == fkcNoneNullable || w == fkcCascadeNullable || w == fkSelfIdxNullable || w == fkSelfCascade || w == fkSelfNone || w == fkChildTarget
 }
 func (w fkWiring) cascade() bool {
 	return w == fkIdxCascade || w == fkcCascadeNullable || w == fkcCascadeNonNull || w == fkSelfCascade
 }
-func (w fkWiring) self() bool { return w == fkSelfIdxNullable || w == fkSelfCascade }
+func (w fkWiring) self() bool { return w == fkSelfIdxNullable || w == fkSelfCascade || w == fkSelfNone }
+
+// childTarget: the referenced store is a plain child store of the referring store - a target exists only if the
+// entity has child data there (an entity of the parent store alone is not a valid target, not even for itself).
+func (w fkWiring) childTarget() bool { return w == fkChildTarget }
 
 type fkModel struct {
 	sc      *fkScenario
+	special map[string]bool // childTarget wiring: widgets that have data in the child store
 	owners  map[string]bool
 	widgets map[string]*string // referrer id -> target (nil = null)
 }
 
 func (m *fkModel) Clone() explore.Model {
-	n := &fkModel{sc: m.sc, owners: map[string]bool{}, widgets: map[string]*string{}}
+	n := &fkModel{sc: m.sc, owners: map[string]bool{}, widgets: map[string]*string{}, special: map[string]bool{}}
+	for k := range m.special {
+		n.special[k] = true
+	}
 	for k := range m.owners {
 		n.owners[k] = true
 	}
@@ -76,6 +88,10 @@ func (m *fkModel) Clone() explore.Model {
 }
 
 func (m *fkModel) targetExists(id string) bool {
+	if m.sc.w.childTarget() {
+		_, ok := m.widgets[id]
+		return ok && m.special[id]
+	}
 	if m.sc.w.self() {
 		_, ok := m.widgets[id]
 		return ok
@@ -95,6 +111,9 @@ func (m *fkModel) Render() *dump.Tree {
 	for w, o := range m.widgets {
 		b := t.Ensure("root", "widgets", w)
 		b.Values["label"] = world.EncString("L")
+		if m.special[w] {
+			t.Ensure("root", "widgets", w, "special").Values["grade"] = world.EncInt64(7)
+		}
 		if o == nil {
 			b.Values["owner"] = world.EncNil()
 		} else {
@@ -112,6 +131,7 @@ type fkScenario struct {
 	label    string
 	owners   *world.Store
 	widgets  *world.Store
+	special  *world.Store // childTarget wiring: plain child store of widgets
 	ownerIds []string
 	widgetId []string
 	missing  string
@@ -127,7 +147,12 @@ func newFkScenario(w fkWiring, ownerIds, widgetIds []string, label string) *fkSc
 		{Name: "label", Kind: world.KString}, {Name: "owner", Kind: world.KStringP}}}
 	sc.widgets = world.NewStore(widgetSpec)
 	var target *world.Store
-	if w.self() {
+	if w.childTarget() {
+		sc.special = world.NewStore(&world.Spec{Parent: sc.widgets, ChildPath: []string{"special"}, Fields: []world.Field{
+			{Name: "label", Kind: world.KString}, {Name: "owner", Kind: world.KStringP}, {Name: "grade", Kind: world.KInt64P, Child: true}}})
+		target = sc.special
+		sc.ownerIds = nil
+	} else if w.self() {
 		target = sc.widgets
 		sc.ownerIds = nil
 	} else {
@@ -146,7 +171,7 @@ func newFkScenario(w fkWiring, ownerIds, widgetIds []string, label string) *fkSc
 		sc.widgets.AddFkIndex(ownerSym, backRef)
 	case fkIdxCascade:
 		sc.widgets.AddFkIndexCascadeDelete(ownerSym, backRef)
-	case fkcNoneNullable:
+	case fkcNoneNullable, fkSelfNone, fkChildTarget:
 		sc.widgets.AddFkConstraint(ownerSym, true, boltz.CascadeNone)
 	case fkcNoneNonNull:
 		sc.widgets.AddFkConstraint(ownerSym, false, boltz.CascadeNone)
@@ -170,16 +195,24 @@ func (sc *fkScenario) InitDb(db *boltz.DbImpl) error {
 		if sc.owners != nil {
 			sc.owners.InitializeIndexes(ctx.Tx(), h)
 		}
+		if sc.special != nil {
+			sc.special.InitializeIndexes(ctx.Tx(), h)
+		}
 		return h.GetError()
 	})
 }
 
 func (sc *fkScenario) NewModel() explore.Model {
-	return &fkModel{sc: sc, owners: map[string]bool{}, widgets: map[string]*string{}}
+	return &fkModel{sc: sc, owners: map[string]bool{}, widgets: map[string]*string{}, special: map[string]bool{}}
 }
 func (sc *fkScenario) Ops() []explore.Op                   { return sc.ops }
 func (sc *fkScenario) Context(_ []int) boltz.MutateContext { return explore.OrdinaryContext() }
-func (sc *fkScenario) Classify(err error) string           { return classifyCommon(err) }
+func (sc *fkScenario) Classify(err error) string {
+	if err == errSkip {
+		return "skip"
+	}
+	return classifyCommon(err)
+}
 func (sc *fkScenario) Normalize(t *dump.Tree) *dump.Tree {
 	return t.PruneEmpty(func([]string) bool { return false })
 }
@@ -205,6 +238,9 @@ func (m *fkModel) checkRef(self string, owner *string) []string {
 	if *owner == self && m.sc.w.self() {
 		// self reference: target is the entity being written, which exists at validation time
 		return nil
+	}
+	if *owner == self && m.sc.w.childTarget() && !m.special[self] {
+		return []string{"notfound"} // an entity of the parent store alone is no target, not even for itself
 	}
 	if !m.targetExists(*owner) {
 		return []string{"notfound"}
@@ -310,7 +346,7 @@ func (sc *fkScenario) buildOps() {
 	}
 	var targets []*string
 	targets = append(targets, nil)
-	if sc.w.self() {
+	if sc.w.self() || sc.w.childTarget() {
 		for _, w := range sc.widgetId {
 			targets = append(targets, strp(w))
 		}
@@ -362,6 +398,42 @@ func (sc *fkScenario) buildOps() {
 				},
 			})
 		}
+		if sc.w.childTarget() {
+			for _, tgt := range targets {
+				tgt := tgt
+				ts := "null"
+				if tgt != nil {
+					ts = fmt.Sprintf("%q", *tgt)
+				}
+				sc.ops = append(sc.ops, explore.Op{
+					Name: fmt.Sprintf("createSpecial(%s,owner=%s)", w, ts),
+					Do: func(ctx boltz.MutateContext) error {
+						if tgt != nil && *tgt == w {
+							return errSkip // whether an entity being created through the child store is already its own valid target is not specified
+						}
+						if sc.widgets.IsEntityPresent(ctx.Tx(), w) {
+							return errSkip // promoting an existing parent entity through a child-store Create is not specified
+						}
+						return sc.special.Create(ctx, sc.widgetRec(w, tgt).With("grade", int64(7)))
+					},
+					Apply: func(mm explore.Model) []string {
+						m := mm.(*fkModel)
+						if tgt != nil && *tgt == w {
+							return []string{"skip"}
+						}
+						if _, ok := m.widgets[w]; ok {
+							return []string{"skip"}
+						}
+						if errs := m.checkRef(w, tgt); errs != nil {
+							return errs
+						}
+						m.widgets[w] = tgt
+						m.special[w] = true
+						return []string{"ok"}
+					},
+				})
+			}
+		}
 		sc.ops = append(sc.ops, explore.Op{
 			Name: fmt.Sprintf("patchWidget[label](%s,owner=%q)", w, sc.missing),
 			Do: func(ctx boltz.MutateContext) error {
@@ -384,12 +456,42 @@ func (sc *fkScenario) buildOps() {
 						return fmt.Errorf("verif-cycle-recursion: cascade over a reference cycle recurses without bound (observed in a child process; not executed in-process)")
 					}
 				}
+				if sc.w == fkSelfNone || sc.w == fkChildTarget {
+					// restrict, and the entity's only referrer is the entity itself: whether that blocks the delete is
+					// not specified (the fk-index flavour allows it, the constraint flavour refuses) - not executed
+					e, found, err := sc.widgets.FindById(ctx.Tx(), w)
+					if err != nil {
+						return err
+					}
+					if found && e.F["owner"] != nil && e.F["owner"].(string) == w {
+						others := false
+						for _, o := range sc.widgetId {
+							if oe, ofound, _ := sc.widgets.FindById(ctx.Tx(), o); o != w && ofound && oe.F["owner"] != nil && oe.F["owner"].(string) == w {
+								others = true
+							}
+						}
+						if !others {
+							return errSkip
+						}
+					}
+				}
 				return sc.widgets.DeleteById(ctx, w)
 			},
 			Apply: func(mm explore.Model) []string {
 				m := mm.(*fkModel)
 				if _, ok := m.widgets[w]; !ok {
 					return []string{"notfound"}
+				}
+				if cur := m.widgets[w]; (sc.w == fkSelfNone || sc.w == fkChildTarget) && cur != nil && *cur == w && len(m.otherReferrers(w)) == 0 {
+					return []string{"skip"}
+				}
+				if sc.w.childTarget() {
+					if len(m.otherReferrers(w)) > 0 {
+						return []string{"refexists"}
+					}
+					delete(m.widgets, w)
+					delete(m.special, w)
+					return []string{"ok"}
 				}
 				if sc.w.self() {
 					// an entity that only references itself can be deleted (no reference is left dangling)
@@ -599,6 +701,8 @@ func C04(tier string) int {
 		runE1(rep, sc, explore.Config{Programs: progs, SkipRejectedPrefix: true})
 	}
 	run(newFkScenario(fkSelfIdxNullable, nil, []string{"w1", "w1x", "w3"}, "plain ids"))
+	run(newFkScenario(fkSelfNone, nil, []string{"w1", "w1x", "w3"}, "plain ids"))
+	run(newFkScenario(fkChildTarget, nil, []string{"w1", "w1x", "w3"}, "plain ids"))
 	selfCascade := newFkScenario(fkSelfCascade, nil, []string{"w1", "w1x", "w3"}, "plain ids")
 	selfCascade.cycleCrash = probeCycleCrashes()
 	rep.Set("cascade_cycle_recursion_observed_in_child_process", selfCascade.cycleCrash)
